@@ -28,7 +28,7 @@ Lemma ty_word_err {A} (kw : list byte) (rest : parser A) t k : wf_ty t = true ->
   (ty_ends_word t = true -> nid k = true) ->
   is_perr ((fun i => do i, _ <- tag kw i ;; rest i) (pr_ty t k)).
 Proof.
-  intros Hw Hkw Hnw Hp Hrest Hk. cbn [type_words forallb] in Hnw.
+  intros Hw Hkw Hnw Hp Hrest Hk. cbn [type_words base_words app forallb] in Hnw.
   repeat match goal with H : _ && _ = true |- _ => apply andb_prop in H; destruct H end.
   repeat match goal with H : negb _ = true |- _ => apply negb_true_iff in H end.
   destruct t as [b|b1 b2 inner b3 cpp|cpp b1 b2 inner b3|cpp b1 b2 key b3 semi b4 value b5|p]; cbn [pr_ty wf_ty] in *.
@@ -105,17 +105,74 @@ Lemma pr_function_body f k : pr_function f k =
   match fn_coneway f with Some b => txt "oneway" ++ pr_blank b (fn_body f k) | None => fn_body f k end.
 Proof. unfold pr_function, fn_body. destruct (fn_coneway f); reflexivity. Qed.
 
-(* a function is not read as the throws clause of the function before it *)
-Lemma fn_not_throws f k : wf_function f = true -> is_perr (p_throws (pr_function f k)).
+Lemma fld_err_nodigit b X : wf_blank b = true -> nb X = true -> hd_sat (fun c => negb (is_digit c)) X = true ->
+  sfx (pr_blank b X) whole -> is_perr (fld lf df (pr_blank b X)).
 Proof.
-  intros Hw. rewrite pr_function_body. unfold wf_function in Hw. bsplit Hw.
+  intros Hb Hn Hd S. unfold fld. destruct (oblank lf whole Hlf b X Hb Hn S) as [o ->]. cbn [pbind].
+  unfold p_field. apply pbind_err. unfold p_field_id. apply map_res_err, pbind_err, digit1_err, Hd.
+Qed.
+
+Lemma many1_err {A} (p : parser A) fuel i : is_perr (p i) -> is_perr (many1 fuel p i).
+Proof. unfold many1. destruct (p i); cbn; intros H; try contradiction; exact I. Qed.
+
+Lemma annkey_head (g : byte -> bool) key X : is_annkey key = true -> (forall b, idh b = true -> g b = true) -> hd_sat g (key ++ X) = true.
+Proof.
+  destruct key as [|h t]; [discriminate|]. cbn [is_annkey]. intros H Hg. apply andb_prop in H. destruct H as [H _]. cbn. now apply Hg.
+Qed.
+Lemma idh_nodigit b : idh b = true -> negb (is_digit b) = true.
+Proof. destruct b; vm_compute; intro H; try reflexivity; discriminate H. Qed.
+Lemma idh_nb b : idh b = true -> negb (blank_start b) = true.
+Proof. destruct b; vm_compute; intro H; try reflexivity; discriminate H. Qed.
+
+(* a function is not read as the throws clause of the function before it -- not even when its result type begins with
+   the word throws: the clause continues with '(' and a field (which begins with a digit), a type with a '.', an
+   annotation list (whose keys begin with a letter) or the function name *)
+Lemma fn_not_throws f k : wf_function f = true -> sfx (pr_function f k) whole -> is_perr (p_throws (pr_function f k)).
+Proof.
+  intros Hw S. rewrite pr_function_body in *. unfold wf_function in Hw. bsplit Hw.
   destruct (fn_coneway f) as [b|].
   - unfold p_throws. apply pbind_err. apply tag_mism. reflexivity.
-  - match goal with H : head_not_in _ _ = true |- _ => apply head_not_in_1 in H; destruct H as [_ H]; apply head_not_in_1 in H; destruct H as [Hth _] end.
-    unfold fn_body.
-    apply (type_word_err kw_throws _ (fn_type f)); auto using throws_rest_err; try reflexivity.
-    intros _. apply blank_then; auto with bsdb. intros E.
-    match goal with H : negb (is_nil (fn_b1 f)) = true |- _ => rewrite E in H; discriminate end.
+  - unfold fn_body in *. destruct (fn_type f) as [ty an] eqn:Et.
+    assert (Wt : wf_type (CType ty an) = true) by assumption.
+    assert (Hb1 : nid (pr_blank (fn_b1 f) (fn_cname f ++ pr_blank (fn_b2 f) (txt "(" ++ pr_blank (fn_b0 f) (pr_fields (fn_args f)
+                   (txt ")" ++ pr_blank (fn_b3 f) (pr_throws (fn_cthrows f) (pr_oanns (fn_canns f) (pr_sep (fn_sep f) k)))))))) = true).
+    { apply blank_then; auto with bsdb. intros E.
+      match goal with H : negb (is_nil (fn_b1 f)) = true |- _ => rewrite E in H; discriminate end. }
+    destruct (match ty with CTPath p => bytes_eq (cp_head p) kw_throws | _ => false end) eqn:Eh.
+    + (* the result type begins with the word throws *)
+      destruct ty as [| | | |[h tl]]; try discriminate. cbn [cp_head] in Eh. apply bytes_eq_eq in Eh. subst h.
+      assert (Wp : wf_path (mkCPath kw_throws tl) = true).
+      { destruct an as [[bl a]|]; cbn [wf_type wf_ty] in Wt; bsplit Wt; assumption. }
+      unfold wf_path in Wp. cbn [cp_head cp_tail] in Wp. apply andb_prop in Wp. destruct Wp as [_ Wtl].
+      unfold p_throws.
+      destruct tl as [|[[b1 b2] s0] tl].
+      * destruct an as [[bl a]|]; cbn [pr_type pr_ty] in *; unfold pr_path in *; cbn [cp_head cp_tail pr_path_tail] in *.
+        -- cbn [wf_type] in Wt. bsplit Wt. rewrite tag_ok. cbn [pbind].
+           match goal with |- context [opt (p_blank lf) (pr_blank bl ?X)] =>
+             destruct (oblank lf whole Hlf bl X ltac:(assumption) eq_refl ltac:(sfx_of S)) as [o ->] end. cbn [pbind].
+           unfold pr_anns in *. tg sym_throws_open (txt "("). apply pbind_err, many1_err.
+           destruct a as [|a0 a]; [discriminate|]. cbn [pr_ann_list] in *. unfold pr_ann in S |- * at 1.
+           unfold wf_anns in *. match goal with H : negb (is_nil (a0 :: a)) && wf_ann_list (a0 :: a) = true |- _ => cbn [is_nil negb andb wf_ann_list] in H; bsplit H end.
+           match goal with H : wf_ann a0 = true |- _ => unfold wf_ann in H; bsplit H end.
+           apply fld_err_nodigit; [assumption| | |sfx_of S].
+           ++ apply annkey_head; auto using idh_nb.
+           ++ apply annkey_head; auto using idh_nodigit.
+        -- rewrite tag_ok. cbn [pbind].
+           match goal with |- context [opt (p_blank lf) (pr_blank (fn_b1 f) ?X)] =>
+             destruct (oblank lf whole Hlf (fn_b1 f) X ltac:(assumption) ltac:(now apply ident_nb) ltac:(sfx_of S)) as [o ->] end. cbn [pbind].
+           apply pbind_err. assert (Hp := ident_noparen (fn_cname f) (pr_blank (fn_b2 f) (txt "(" ++ pr_blank (fn_b0 f) (pr_fields (fn_args f)
+                   (txt ")" ++ pr_blank (fn_b3 f) (pr_throws (fn_cthrows f) (pr_oanns (fn_canns f) (pr_sep (fn_sep f) k))))))) ltac:(assumption)).
+           unfold noparen in Hp. destruct (fn_cname f ++ _) as [|c0 r0]; [exact I|]. apply tag_hd_ne. cbn in Hp. now apply negb_true_iff in Hp.
+      * cbn [forallb fst snd] in Wtl. bsplit Wtl.
+        assert (E : forall X, pr_type (CType (CTPath (mkCPath kw_throws ((b1, b2, s0) :: tl))) an) X =
+                    kw_throws ++ pr_blank b1 (txt "." ++ pr_blank b2 (s0 ++ pr_path_tail tl (match an with Some (bl, a) => pr_blank bl (pr_anns a X) | None => X end)))).
+        { intros X. destruct an as [[bl a]|]; reflexivity. }
+        rewrite E in *. rewrite tag_ok. cbn [pbind].
+        match goal with |- context [opt (p_blank lf) (pr_blank b1 ?X)] =>
+          destruct (oblank lf whole Hlf b1 X ltac:(assumption) eq_refl ltac:(sfx_of S)) as [o ->] end. cbn [pbind].
+        apply pbind_err. exact I.
+    + apply (type_word_err kw_throws _ (CType ty an)); auto using throws_rest_err; try reflexivity.
+      cbn [type_path_head]. destruct ty; auto.
 Qed.
 
 Lemma function_head (g : byte -> bool) f k : wf_function f = true -> (forall b, idh b = true -> g b = true) ->
@@ -166,10 +223,23 @@ Proof.
       erewrite opt_ok; [reflexivity|]. unfold p_oneway. tg kw_oneway (txt "oneway").
       apply (mblank lf whole Hlf); auto; [now apply type_head_nb|sfx_of S].
     - rewrite opt_err; [reflexivity|]. unfold p_oneway.
-      match goal with H : head_not_in _ _ = true |- _ => apply head_not_in_1 in H; destruct H as [How _] end.
-      apply (type_word_err kw_oneway _ t); auto; try reflexivity; [intros c r Hc; now apply identch_not_blank|].
-      intros _. apply blank_then; auto with bsdb. intros E.
-      match goal with H : negb (is_nil b1) = true |- _ => rewrite E in H; discriminate end. }
+      assert (Hnid : type_ends_word t = true -> nid (pr_blank b1 (name ++ pr_blank b2 (txt "(" ++ pr_blank b0 (pr_fields args (txt ")" ++ pr_blank b3 (pr_throws th Y)))))) = true).
+      { intros _. apply blank_then; auto with bsdb. intros E.
+        match goal with H : negb (is_nil b1) = true |- _ => rewrite E in H; discriminate end. }
+      destruct (match t with CType (CTPath p) _ => bytes_eq (cp_head p) kw_oneway | _ => false end) eqn:Eh.
+      + (* the result type is a path that begins with the word oneway: the word is followed by the '.' *)
+        destruct t as [[| | | |[h tl]] an]; try discriminate. cbn [cp_head] in Eh. apply bytes_eq_eq in Eh. subst h.
+        match goal with H : oneway_head_ok _ = true |- _ => cbn [oneway_head_ok cp_head cp_tail] in H;
+          change (bytes_eq kw_oneway (txt "oneway")) with true in H; cbn [negb orb] in H end.
+        subst B. destruct tl as [|[[c1 c2] s0] tl].
+        * destruct an as [[bl0 an0]|]; [|discriminate]. destruct bl0; [|discriminate].
+          cbn [pr_type pr_ty]; unfold pr_path, pr_anns; cbn [cp_head cp_tail pr_path_tail pr_blank];
+            rewrite tag_ok; cbn [pbind]; apply blank_err; reflexivity.
+        * destruct c1; [|discriminate].
+          destruct an as [[bl0 an0]|]; cbn [pr_type pr_ty]; unfold pr_path; cbn [cp_head cp_tail pr_path_tail pr_blank];
+            rewrite tag_ok; cbn [pbind]; apply blank_err; reflexivity.
+      + apply (type_word_err kw_oneway _ t); auto; try reflexivity; [|intros c r Hc; now apply identch_not_blank].
+        destruct t as [[] ?]; cbn [type_path_head]; auto. }
   rewrite E0. cbn [pbind].
   assert (SB : sfx B whole) by (destruct ow; sfx_of S). clear E0.
   unfold B in *. clear B.
@@ -291,7 +361,7 @@ Proof.
     assert (TK : fn_bare f = true -> is_perr (p_throws K)).
     { intros Eb. assert (Ec : function_closed f = false).
       { unfold fn_bare, function_closed in *. bsplit Eb. match goal with H : is_none (fn_canns f) = true |- _ => now rewrite H end. }
-      destruct (Kopen Ec) as [[g [K' [-> Wg]]] | ->]; [now apply fn_not_throws|]. unfold p_throws. apply pbind_err. exact I. }
+      destruct (Kopen Ec) as [[g [K' [-> Wg]]] | ->]; [apply fn_not_throws; [exact Wg|sfx_of S]|]. unfold p_throws. apply pbind_err. exact I. }
     assert (E1 : fnp (pr_blank b (pr_function f K)) = POk K (erase_function f)).
     { unfold fnp. destruct (oblank lf whole Hlf b (pr_function f K) ltac:(assumption)) as [o ->]; [| exact S |].
       - apply function_head; auto. intros c Hc. apply stop_nb with (k := [c]). cbn. now apply idh_stop.
